@@ -39,6 +39,8 @@ let parse_effect (t : string) : effect =
   | ["adddep"; e; h; sl; cb] -> EAddDep (ni e, ni h, ni sl, cb = "1")
   | ["rmdep"; e; sl] -> ERemoveDep (ni e, ni sl)
   | ["swapdep"; e; sl; cb; hs] -> ESwapDep (ni e, ni sl, List.map ni (String.split_on_char ',' hs), cb = "1")
+  | ["subscribe"; o; hid] -> ESubscribe (ni o, zi hid)
+  | ["unsub"; o; tok] -> EUnsubscribe (ni o, zi tok)
   | ["makestale"; e] -> EMakeStale (ni e)
   | ["invalidate"; e] -> EInvalidateExpert (ni e)
   | ["stabilise"] -> EStabilise
